@@ -273,6 +273,10 @@ func c13NewStoreFlush(c *eng.Ctx, isFlush func(ssa.Instruction) bool) {
 		if cond.If != nil && cond.If.Block().Dominates(stubs[0].Block()) && !stubs[0].Block().Dominates(cond.If.Block()) {
 			continue
 		}
+		// so is the exit of a loop over a finite collection (it is always taken eventually)
+		if cond.If != nil && eng.IsRangeHeader(ns, cond.If.Block()) {
+			continue
+		}
 		other = append(other, cond.String())
 	}
 	c.Check(len(other) == 0, "R-C13-1", ns, flush.Pos(), "NewStore: conditions on the initial flush", "the flush depends only on 'a declared name was missing' and 'initialisation succeeded'", "additional conditions: "+join(other))
